@@ -24,7 +24,8 @@ CONSTANTS Tids, Keys, None, Corrupt, Udp, DefSched, DefLast, IdleWait,
           SealedOpts,     \* may the client's requests carry integrity?
           MaxTime, TickSet,
           MaxDup,         \* how many times the network may duplicate
-          MaxLoss         \* how many datagrams the network may lose
+          MaxLoss,        \* how many datagrams the network may lose
+          MaxFlight       \* capacity of the network per transaction and direction (a datagram beyond it is dropped)
 
 ServerAddr == "srv"
 Addrs == {ServerAddr}
@@ -34,7 +35,7 @@ VARIABLES out, validated, rcred, lcred, act,     \* the client agent
           now,
           c2s,            \* requests in flight client -> server: [Tids -> Nat] (copies of one request are indistinguishable)
           s2c,            \* responses in flight server -> client: [Tids -> Nat]
-          nid,            \* number of datagrams ever put on the wire
+          nid,            \* (unused; kept constant)
           ndup, nloss,    \* what the network has done so far
           stat,           \* ghost per tid: [tx, delivered, done] of the current incarnation
           ever            \* ghost: has any response ever been handed up?
@@ -53,14 +54,14 @@ Sched_12 == <<1, 2>>
 ClientSend(t, sealed) ==
   /\ C!SendRequest(t, ServerAddr, sealed, "req", now)
   /\ IF act'.reply.k = "transmit"
-       THEN /\ c2s' = [c2s EXCEPT ![t] = @ + 1] /\ nid' = nid + 1
+       THEN /\ c2s' = [c2s EXCEPT ![t] = IF @ < MaxFlight THEN @ + 1 ELSE @] /\ nid' = nid
             /\ stat' = [stat EXCEPT ![t] = [tx |-> 1, delivered |-> 0, done |-> FALSE]]
        ELSE UNCHANGED <<c2s, nid, stat>>
   /\ UNCHANGED <<now, s2c, ndup, nloss, ever>>
 ClientPoll ==
   /\ C!Poll(now)
   /\ IF act'.reply.k = "transmit"
-       THEN /\ c2s' = [c2s EXCEPT ![act'.reply.tid] = @ + 1] /\ nid' = nid + 1
+       THEN /\ c2s' = [c2s EXCEPT ![act'.reply.tid] = IF @ < MaxFlight THEN @ + 1 ELSE @] /\ nid' = nid
             /\ stat' = [stat EXCEPT ![act'.reply.tid].tx = @ + 1]
        ELSE IF act'.reply.k \in {"timeout", "cancelled"}
          THEN stat' = [stat EXCEPT ![act'.reply.tid].done = TRUE] /\ UNCHANGED <<c2s, nid>>
@@ -77,8 +78,8 @@ ServerReceive(t, keep) ==
   /\ (keep => ndup < MaxDup)
   /\ c2s' = IF keep THEN c2s ELSE [c2s EXCEPT ![t] = @ - 1]
   /\ ndup' = IF keep THEN ndup + 1 ELSE ndup
-  /\ s2c' = [s2c EXCEPT ![t] = @ + 1]
-  /\ nid' = nid + 1
+  /\ s2c' = [s2c EXCEPT ![t] = IF @ < MaxFlight THEN @ + 1 ELSE @]
+  /\ nid' = nid
   /\ act' = [name |-> "server", tid |-> t, keep |-> keep]
   /\ UNCHANGED <<out, validated, rcred, lcred, now, nloss, stat, ever>>
 \* the network delivers a response to the client
